@@ -261,6 +261,7 @@ theorem c05_setVdims_valid {f g : Fld} {vd} (h : C05.setVdims f vd = .ok g) : g.
         · exact (c05_setVmap_valid h).trans rfl
       · simp only [Except.ok.injEq] at h; subst h; rfl
     · simp only [Except.ok.injEq] at h; subst h; rfl
+    · simp only [Except.ok.injEq] at h; subst h; rfl
 
 theorem c05_lapComp_valid {f t : Fld} {v : String} (h : C05.lapComp f v = .ok t) :
     SameMask t.valid f.valid ∧ 0 < f.mesh.region.dims.length := by
